@@ -5,7 +5,8 @@
 #  3. the registered check for property <ID> is run against the patched tree (PGM_REPO) and its verdict recorded.
 # Writes /verif/seeded/<name>/{patch.diff,demo.cpp,meta.json}; removes the scratch worktree.
 ID=$1; NAME=${2:-$ID}
-SRC=/tmp/mut; W=/tmp/chk/$NAME; OUT=/verif/seeded/$NAME
+VERIF=${VERIF:-/verif}
+SRC=/tmp/mut; W=/tmp/chk/$NAME; OUT=$VERIF/seeded/$NAME
 mkdir -p $OUT; rm -rf $W; git -C /repo worktree prune
 git -C /repo worktree add -q --detach $W HEAD || exit 2
 cp $SRC/$NAME.patch.diff $OUT/patch.diff; cp $SRC/$NAME.demo.cpp $OUT/demo.cpp
@@ -14,14 +15,14 @@ EXTRA=""; grep -q "cpgm.h" $OUT/demo.cpp && EXTRA="c-interface/cpgm.cpp"
 # clean demo
 ( cd $W && g++ $DEMOFLAGS -Iinclude -Ic-interface $OUT/demo.cpp $EXTRA -o $W/demo_clean -lpthread ) > $OUT/.log 2>&1
 timeout 900 $W/demo_clean > $OUT/.clean.out 2>&1; CLEAN_RC=$?
-git -C $W apply $OUT/patch.diff || { echo "patch does not apply"; exit 2; }
+git -C $W apply $OUT/patch.diff 2>/dev/null || ( cd $W && patch -p1 -F3 -s < $OUT/patch.diff ) || { echo "patch does not apply"; exit 2; }
 ( cd $W && g++ $DEMOFLAGS -Iinclude -Ic-interface $OUT/demo.cpp $EXTRA -o $W/demo_mut -lpthread ) >> $OUT/.log 2>&1
 timeout 900 $W/demo_mut > $OUT/.mut.out 2>&1; MUT_RC=$?
 # existing suite with the change
 ( cmake -G Ninja -B $W/_build -S $W -DCMAKE_BUILD_TYPE=RelWithDebInfo -DBUILD_EXAMPLES=OFF -DBUILD_PGM_TUNER=OFF -DBUILD_PGM_BENCHMARK=OFF > /dev/null && cmake --build $W/_build --target tests -- -j6 > /dev/null 2>&1 && timeout 1800 $W/_build/test/tests | tail -2 ) > $OUT/.tests.out 2>&1; TEST_RC=$?
 rm -rf $W/_build
 # the check against the patched tree
-( cd /verif && PGM_REPO=$W python3 run.py --property $ID 2>&1 | grep -E "VIOLATION|KNOWN-FINDING|^$ID:" ) > $OUT/.check.out 2>&1
+( cd $VERIF && PGM_REPO=$W python3 run.py --property $ID 2>&1 | grep -E "VIOLATION|KNOWN-FINDING|^$ID:" ) > $OUT/.check.out 2>&1
 DET=no; grep -q "^VIOLATION property=$ID" $OUT/.check.out && DET=yes
 NOFAIL=no; grep -q "no-failing-input-found" $OUT/.check.out && NOFAIL=yes
 python3 - <<PY
